@@ -362,6 +362,17 @@ class Assembler:
                     edits.extend(e[0])
                     k = e[1]
                     continue
+            # ---- R15: reference pattern in let-else: `let Some(&x) = e else { .. };` -> bind the reference, then copy
+            if t.kind == IDENT and t.text == "let" and v.is_id(k + 1, "Some") and v.is_p(k + 2, "(") and v.is_p(k + 3, "&") \
+                    and v.is_id(k + 4) and v.is_p(k + 5, ")") and v.is_p(k + 6, "="):
+                name = v.text(k + 4)
+                j = k + 7
+                while j < b and not v.is_p(j, ";"):
+                    if v.t[j].text in "([{":
+                        j = v.match[j]
+                    j += 1
+                edits.append(Edit(k + 3, k + 5, f"{name}__r", "R15", "reference pattern -> bound reference"))
+                edits.append(Edit(j + 1, j + 1, f"let {name} = *{name}__r;", "R15", "copy out of the bound reference"))
             # ---- R11b: the one refutable use `if let Ok([v]) = e {`  ->  `if let Ok(t__k) = e { let v = t__k[0];`
             if t.kind == IDENT and t.text == "if" and v.is_id(k + 1, "let") and v.is_id(k + 2, "Ok") and v.is_p(k + 3, "(") \
                     and v.is_p(k + 4, "[") and v.is_p(v.match[k + 4] + 1, ")") and v.is_p(v.match[k + 4] + 2, "="):
@@ -749,6 +760,9 @@ class Assembler:
                     continue
                 if h.mode == "before":
                     inserts.append(Ins(r[0], h.text, f"hint:{fs.path}", 2))
+                elif h.mode == "past":
+                    # %past N `anchor`: insert right after the last token of the anchor
+                    inserts.append(Ins(r[1], h.text, f"hint:{fs.path}", 2))
                 elif h.mode == "wrap":
                     pre, _, post = h.text.partition("\n---\n")
                     inserts.append(Ins(r[0], pre, f"hint:{fs.path}", 3))
